@@ -1093,7 +1093,8 @@ _CENV = _corpus.make_env(Env)
 
 def _corpus_skip(w2, w1, leaf):
     src = _corpus.source(w2, w1, leaf)
-    return "{% with" in src or "{% macro" in src or "{% translate" in src   # extra tags: outside the quantifier
+    # extra tags: outside the quantifier; raw blocks: their str() drops the tags (listed known finding, c04_e5_raw)
+    return "{% with" in src or "{% macro" in src or "{% translate" in src or "{% raw" in src
 
 
 def _corpus_check(w2, w1, leaf, d):
